@@ -805,13 +805,23 @@ class QubitCircuit:
                 i = start
                 while i < end:
                     if start + end - i - i == 1 and (end - start + 1) % 2 == 0:
-                        temp.gates.append(Gate(gate.name, targets=[i, i + 1]))
+                        temp.gates.append(
+                            Gate(
+                                gate.name,
+                                targets=[i, i + 1],
+                                arg_value=gate.arg_value,
+                            )
+                        )
                     elif (start + end - i - i) == 2 and (
                         end - start + 1
                     ) % 2 == 1:
                         temp.gates.append(Gate("SWAP", targets=[i, i + 1]))
                         temp.gates.append(
-                            Gate(gate.name, targets=[i + 1, i + 2])
+                            Gate(
+                                gate.name,
+                                targets=[i + 1, i + 2],
+                                arg_value=gate.arg_value,
+                            )
                         )
                         temp.gates.append(Gate("SWAP", targets=[i, i + 1]))
                         i += 1
